@@ -4,6 +4,8 @@ EXTENDS LiskBFTTree
 W221 == <<2, 2, 1>>
 W1111 == <<1, 1, 1, 1>>
 W112 == <<1, 1, 2>>
+W21 == <<2, 1>>
+Choices21 == << [pcT |-> 2, certT |-> 3, w |-> <<2, 2>>], [pcT |-> 1, certT |-> 1, w |-> <<1, 0>>] >>
 NoChoices == <<>>
 \* validator 3 (Byzantine, weight 1) leaves / weights change; Byzantine weight stays < 1/3
 Choices221 == << [pcT |-> 3, certT |-> 3, w |-> <<2, 2, 0>>], [pcT |-> 4, certT |-> 4, w |-> <<3, 2, 1>>] >>
